@@ -8,4 +8,4 @@ META = {"explanation": "bounded functional: one concrete (small) shape per group
 
 
 def groups(tier, seed):
-    return with_canaries(alg.c05(tier)) + with_canaries([g for g in layer_s.tri_groups(["C05", "C04", "C11"]) if g.function == "mzd_trtri_upper"])
+    return with_canaries(alg.c05(tier)) + with_canaries([g for g in layer_s.tri_groups(["C05", "C04", "C11"]) if g.function == "mzd_trtri_upper"]) + with_canaries([g for g in layer_s.front_groups(["C05", "C11"]) if g.function == "mzd_inv_m4ri"])
